@@ -50,7 +50,7 @@ class Ctx:
         self.nontrivial.add(hashlib.sha1(repr(key).encode()).digest()[:8])
 
     # --- tie 2 -------------------------------------------------------------------------------
-    def corr(self, lines, impl_step, label, nontrivial=None):
+    def corr(self, lines, impl_step, label, nontrivial=None, workers=False):
         """run the same operation lines through the Lean model and the implementation and diff.
 
         nontrivial: optional predicate on (line, impl_output) marking a case as non-trivial
@@ -58,7 +58,7 @@ class Ctx:
         if not lines:
             return []
         t_impl = time.time()
-        impl_out = common.pmap(impl_step, lines)
+        impl_out = common.pmap(impl_step, lines, threshold=1 if workers else 800)
         self.dist['time_impl_s'] = round(self.dist.get('time_impl_s', 0) + time.time() - t_impl, 2)
         self.evaluations += len(lines)
         self.corr_commands[label] = self.corr_commands.get(label, 0) + len(lines)
